@@ -45,7 +45,10 @@ OpDiff(a, b, os, isbranch) ==
 InsDiff(d, want) ==
    LET br == want.mn \in Branches \cup Jcc
        n == Len(want.ops) IN
-   IF ~SameMn(d.mn, want.mn) THEN <<"mnemonic", 0>>
+   \* 90 is both NOP and the encoding of xchg eax, eax (SDM: "XCHG (E)AX, (E)AX (encoded instruction byte is 90H) is an alias for NOP")
+   IF want.mn = "xchg" /\ d.mn = "nop" /\ n = 2 /\ d.ops = <<>> /\ want.ops[1] = want.ops[2] /\ want.ops[1].k = "reg"
+      /\ want.ops[1].n = 0 /\ want.ops[1].c = (IF d.os = 16 THEN "r16" ELSE "r32") THEN <<"", 0>>
+   ELSE IF ~SameMn(d.mn, want.mn) THEN <<"mnemonic", 0>>
    ELSE IF Len(D!CanonOps(d)) # n /\ Len(d.ops) # n THEN <<"operands", 0>>
    ELSE LET dd == IF Len(d.ops) = n THEN d ELSE [d EXCEPT !.ops = D!CanonOps(d)]
             \* xchg and test have one encoding direction: their operands are an unordered pair
